@@ -386,20 +386,57 @@ func c11MemoKey(c *Check, a *Anchors) {
 		})
 	}
 	scan(fb, nil, 1)
-	// key: parameters mentioned by index expressions on the cache
+	// key: parameters that flow into index expressions on the cache (in this function or through a helper's parameters)
 	keyed := map[*types.Var]bool{}
 	nIdx := 0
-	inspectBody(fb.Body, func(nd ast.Node) bool {
-		if ix, ok := nd.(*ast.IndexExpr); ok && fieldSel(info, ix.X, PkgTask, "Compiler", "dynamicCache") {
-			nIdx++
-			for _, p := range params {
-				if mentionsVia(info, fb.Body, ix.Index, p, 2) {
-					keyed[p] = true
+	var scanKey func(g *FuncBody, bind map[*types.Var]ast.Expr, depth int)
+	scanKey = func(g *FuncBody, bind map[*types.Var]ast.Expr, depth int) {
+		ginfo := g.Info()
+		inspectBody(g.Body, func(nd ast.Node) bool {
+			switch x := nd.(type) {
+			case *ast.IndexExpr:
+				if fieldSel(ginfo, x.X, PkgTask, "Compiler", "dynamicCache") {
+					nIdx++
+					for _, p := range params {
+						if g == fb && mentionsVia(info, fb.Body, x.Index, p, 2) {
+							keyed[p] = true
+						}
+					}
+					for hp, arg := range bind {
+						if mentionsVia(ginfo, g.Body, x.Index, hp, 2) {
+							for _, p := range params {
+								if mentionsVia(info, fb.Body, arg, p, 2) {
+									keyed[p] = true
+								}
+							}
+						}
+					}
+				}
+			case *ast.CallExpr:
+				if depth > 0 && g == fb {
+					if fn, ok := callee(ginfo, x).(*types.Func); ok {
+						if h := c.P.DeclOf(fn); h != nil && h.Pkg == fb.Pkg && h != fb {
+							b := map[*types.Var]ast.Expr{}
+							pi := 0
+							for _, fld := range h.Type.Params.List {
+								for _, id := range fld.Names {
+									if pi < len(x.Args) {
+										if pv, ok := h.Info().Defs[id].(*types.Var); ok {
+											b[pv] = x.Args[pi]
+										}
+									}
+									pi++
+								}
+							}
+							scanKey(h, b, depth-1)
+						}
+					}
 				}
 			}
-		}
-		return true
-	})
+			return true
+		})
+	}
+	scanKey(fb, nil, 1)
 	if nIdx == 0 || len(inputs) == 0 {
 		c.Errorf("memo-key-complete: cache index (%d) or command options literal not found in %s", nIdx, fnDisplay(fb))
 		return
